@@ -126,3 +126,11 @@ package expressions
 //@   fresh
 //@   modifies nothing
 //@   ensures result != nil && fresh(result)
+
+// BlockT.append: the raw text and parameters of the function being appended are slices of the
+// parser's expression up to the cursor; for an expression tree the cursor is clamped to the last
+// rune first. In range for every cursor position a parser can hand over.
+//@ func (*BlockT).append [C20 C19]
+//@   check slice
+//@   requires blk != nil
+//@   requires imp(tree != nil, -1 <= tree.charPos && imp(tree.statement != nil, tree.charPos < len(tree.expression)))
